@@ -334,6 +334,14 @@ func workDir() string {
 	return d
 }
 
+// cleanWorkDir removes the scratch directory when this process had to create one itself
+// (./check supplies and removes $VERIF_WORK).
+func cleanWorkDir() {
+	if os.Getenv("VERIF_WORK") == "" {
+		os.RemoveAll(filepath.Join(vk.Root, ".work", fmt.Sprintf("c04.%d", os.Getpid())))
+	}
+}
+
 func startListenChild(r *vk.Run, spec string, id int) *listenChild {
 	ch := &listenChild{spec: spec, progress: filepath.Join(workDir(), fmt.Sprintf("c04-listen-%d-%d.progress", os.Getpid(), id))}
 	os.Remove(ch.progress)
@@ -422,5 +430,6 @@ func replayListen(r *vk.Run, lc listenCase) {
 		return
 	}
 	res, ok := ch.wait(r)
+	cleanWorkDir()
 	fmt.Printf("listener datagram %s: library = %d events, %d errors, crashed=%v   reference = an event or an error, no panic\n", lc.Hex, res.Events, res.Errors, !ok)
 }
